@@ -1324,8 +1324,12 @@ def _q_alloc_cmp(st, a, ratios, other, d):
             if twin.convert(p.unit).amount != p.amount:
                 continue        # the other unit's grid cannot hold this amount
             got = (p == twin, p != twin, p < twin, p <= twin, p > twin, p >= twin,
-                   twin == p, twin < p, twin > p, hash(p) == hash(twin))
-            if got != (True, False, False, True, False, True, True, False, False, True):
+                   twin == p, twin < p, twin > p, hash(p) == hash(twin),
+                   p.convert(ou).amount == twin.amount,
+                   (p + p).amount == 2 * p.amount, (twin + p).amount == 2 * twin.amount,
+                   p.equiv_amount(ou) == twin.amount)
+            if got != (True, False, False, True, False, True, True, False, False, True,
+                       True, True, True, True):
                 bad.append(f"{i}:{rat(p.amount)}{p.unit.symbol}~{rat(twin.amount)}{ou.symbol}:{got}")
             bigger = type(p)(p.amount + (1 if p.unit.quantum is None else p.unit.quantum), p.unit).convert(ou)
             if not (p < bigger and bigger > p and p != bigger):
